@@ -25,6 +25,7 @@ EXPLANATION = (
     "decided: elapsed time, 'plus a small margin', user handlers that block."
     ' Second session: borrowed rules - artim-every-pass (C05 reactor-order and artim-progress) and reactor-resumed (C24 checkpoint); connect() analysed with the path-sensitive ConnectModel, one recv-bounded instance per timeout class that can be on the socket when it is marked open.'
     ' Fourth session: (timers-measure) borrowed from C09: the timers enforcing the timeouts measure elapsed time for every order of start / stop / set-timeout.'
+    " Fifth round: the DIMSE / ACSE provider timeout getters must hand out the association's own timeout attribute (`self.assoc.<timeout>`), never a cached or transformed copy."
 )
 
 # Event.wait() sites without a timeout: function -> (event, how its set() is guaranteed)
